@@ -1,4 +1,76 @@
 import Driver.Common
+import AnyioModel.Sync.Limiter
 
-/-- placeholder driver: replies `unimplemented` to every request -/
-def main : IO Unit := Driver.serve () (fun s _ => (s, "unimplemented"))
+namespace Driver.Limiter
+open AnyioModel.Sync.Limiter
+
+def outStr : Out → String
+  | .susp => "susp"
+  | .ret => "ret"
+  | .wouldBlock => "wouldblock"
+  | .runtimeError => "runtimeerror"
+  | .cancelled => "cancelled"
+  | .env => "env"
+
+/-- `inf` = `math.inf` -/
+def parseTotal (s : String) : Option (Option Nat) :=
+  if s = "inf" then some none else (s.toNat?).map some
+
+def parseEv : List String → Option Ev
+  | ["acquire", t, pre] => do some (.acquire (← t.toNat?) (← Driver.parseBool pre))
+  | ["acquire_nowait", t] => do some (.acquireNowait (← t.toNat?))
+  | ["release", t] => do some (.release (← t.toNat?))
+  | ["acquire_on_behalf_of", t, b, pre] =>
+    do some (.acquireOnBehalf (← t.toNat?) (← b.toNat?) (← Driver.parseBool pre))
+  | ["acquire_on_behalf_of_nowait", t, b] =>
+    do some (.acquireOnBehalfNowait (← t.toNat?) (← b.toNat?))
+  | ["release_on_behalf_of", t, b] => do some (.releaseOnBehalf (← t.toNat?) (← b.toNat?))
+  | ["set_total", v] => do some (.setTotal (← parseTotal v))
+  | ["step", t] => do some (.step (← t.toNat?))
+  | ["fc", t] => do some (.fc (← t.toNat?))
+  | ["mc", t] => do some (.mc (← t.toNat?))
+  | _ => none
+
+def insertSorted (x : Nat) : List Nat → List Nat
+  | [] => [x]
+  | y :: ys => if x ≤ y then x :: y :: ys else y :: insertSorted x ys
+
+def sortNat (l : List Nat) : List Nat := l.foldr insertSorted []
+
+def totalStr : Option Nat → String
+  | none => "inf"
+  | some n => toString n
+
+def availStr (s : State) : String :=
+  match s.total with
+  | none => "inf"
+  | some n => toString ((n : Int) - (s.borrowers.length : Int))
+
+/-- requests: `new <total|inf>`, `obs`, `set_total_bad neg|type` (the setter's argument
+validation, which precedes any state change), or an event.  The reply to an event carries
+`!` when the event violates the `OneWaitPerBorrower`/`ReleaseAfterReturn` discipline. -/
+def handle (s : State) : List String → State × String
+  | ["new", v] =>
+    match parseTotal v with
+    | some v => (init v, "ok")
+    | none => (s, "bad-op")
+  | ["obs"] =>
+    (s, s!"borrowed={s.borrowers.length} total={totalStr s.total} available={availStr s} " ++
+        s!"waiting={s.queue.length} borrowers={",".intercalate ((sortNat s.borrowers).map toString)}")
+  | ["skip"] => (s, "skipped")
+  | ["ghost"] =>
+    (s, s!"holders={",".intercalate ((sortNat s.holders).map toString)} resv={s.resv.length} " ++
+        s!"grants={s.grants} rels={s.rels} lowered={Driver.bool01 s.lowered}")
+  | ["set_total_bad", "neg"] => (s, "valueerror")
+  | ["set_total_bad", "type"] => (s, "typeerror")
+  | ws =>
+    match parseEv ws with
+    | none => (s, "bad-op")
+    | some e =>
+      match step s e with
+      | none => (s, "DISABLED")
+      | some (s', o) => (s', outStr o ++ (if okEv s e then "" else " !"))
+
+end Driver.Limiter
+
+def main : IO Unit := Driver.serve (AnyioModel.Sync.Limiter.init none) Driver.Limiter.handle
